@@ -633,6 +633,9 @@ func (ctx *EvalCtx) callExpr(x *ast.CallExpr) CV {
 	f := ex.f
 	// special forms
 	if id, ok := x.Fun.(*ast.Ident); ok {
+		if cv, ok := ctx.specialForm(id.Name, x); ok {
+			return cv
+		}
 		switch id.Name {
 		case "old":
 			saved := ctx.inOld
